@@ -38,6 +38,9 @@ def simulate(configfile, outfile, gtis=None, du_id=1, seed=1, roi_model=None, **
     from ixpeobssim.irf import load_irf_set
     from ixpeobssim.srcmodel import import_roi
     kwargs = sim_kwargs(configfile, outfile, gtis, **over)
+    if kwargs.get('charging'):
+        from ixpeobssim.bin.xpobssim import _update_charging_settings
+        _update_charging_settings(kwargs)
     if roi_model is None:
         roi_model = import_roi(configfile)
     numpy.random.seed(seed + du_id - 1)
